@@ -28,10 +28,11 @@ pub fn parse<'a>(token: &'a tokenizer::Token) -> Option<Element<'a>> {
     match &token.kind {
         tokenizer::TokenKind::Element(element) => {
             let (pairs, last_state) = {
-                let target = token
-                    .value
-                    .trim_start_matches(element.delimiter_start)
-                    .trim_end_matches(element.delimiter_end);
+                let target = token.value;
+                let target = target
+                    .strip_prefix(element.delimiter_start)
+                    .unwrap_or(target);
+                let target = target.strip_suffix(element.delimiter_end).unwrap_or(target);
 
                 let (mut pairs, last_state) = target.char_indices().fold(
                     (vec![], State::NameBegin),
